@@ -411,6 +411,9 @@ def rule_exact_tests(prog, C, rule="R-C04-c"):
                     integral = bool(forms) and all(is_integral(scalarise(erase_R(f), cfg)) for f in forms)
                     adjusted = m.zero_adjusted(term)
                     cons = "%s region %d (%s), weights %s, %s" % (name, pos, m.role(pos), w, "ignore" if ign else "propagate")
+                    if not (integral or adjusted) and (not forms or any(has_unknown(f) for f in forms)):
+                        C.add(rule, UNDECIDED, "ffuncs:ffunc_%s.reduce" % name, cons, "the counter's fill expression is not normalised, so whether it is integral is not known")
+                        continue
                     C.ok(integral or adjusted, rule, "ffuncs:ffunc_%s.reduce" % name, cons,
                          "integral counter" if integral else "snapped to zero by adjust_zeros(new=0) before the exact test",
                          "a weighted (floating-point) counter that went through marginal differencing is compared with 0 exactly",
@@ -735,6 +738,105 @@ def rule_region_kind(prog, C, rule, modules=("ffuncs", "xfuncs"), classes=None):
                                 C.add(rule, UNDECIDED, where, cons, "dtype %s not recognised" % unk[0])
                             else:
                                 C.add(rule, PROVED, where, cons, ", ".join(sorted(set(shown))))
+    return n
+
+
+# ------------------------------------------------------------------------------ layout of row arrays
+def _layout(t, seen=None):
+    """Axis layout of a constructor term for facts of shape (rows, columns) and per-row weights:
+    'RC' (rows, columns), 'CR' (columns, rows), 'R' (rows,), 'S' scalar / unknown-but-harmless, or ('BAD', why), None = not understood."""
+    if t.op == "unpack" and t.args[0].op == "call" and (tm.callee_name(t.args[0]) or "").endswith("as_separate_validity"):
+        a = t.args[0].args[1]
+        if a and a[0].op == "param":
+            return "RC" if a[0].args[0] == "arr" else ("R" if a[0].args[0] == "weights" else None)
+        return None
+    if t.op == "param":
+        return "RC" if t.args[0] == "arr" else ("R" if t.args[0] == "weights" else None)
+    if t.op == "const":
+        return "S"
+    if t.op == "attr" and t.args[1] == "T":
+        x = _layout(t.args[0])
+        return {"RC": "CR", "CR": "RC", "R": "R", "S": "S"}.get(x, x)
+    if t.op == "call":
+        nm = tm.callee_name(t) or ""
+        if nm in (".copy", ".astype", ".view") or nm in ("numpy.asarray", "numpy.array", "numpy.ascontiguousarray", "numpy.isnan", "numpy.logical_not", "numpy.abs"):
+            return _layout(t.args[0].args[0] if nm.startswith(".") else t.args[1][0])
+        if nm == "numpy.transpose" and len(t.args[1]) == 1:
+            x = _layout(t.args[1][0])
+            return {"RC": "CR", "CR": "RC"}.get(x, x)
+        if nm == ".transpose" and not t.args[1]:
+            x = _layout(t.args[0].args[0])
+            return {"RC": "CR", "CR": "RC"}.get(x, x)
+        return None
+    if t.op == "unop":
+        return _layout(t.args[-1])
+    if t.op == "binop" and t.args[0] in ("*", "&", "|", "+", "-", "/"):
+        a, b = _layout(t.args[1]), _layout(t.args[2])
+        for x in (a, b):
+            if isinstance(x, tuple):
+                return x
+        if a is None or b is None:
+            return None
+        if "S" in (a, b):
+            return b if a == "S" else a
+        if a == b:
+            return a
+        if {a, b} == {"CR", "R"}:
+            return "CR"  # (columns, rows) op (rows,): the per-row vector runs along the last axis
+        if {a, b} == {"RC", "R"}:
+            return ("BAD", "a (rows, columns) array is combined with a per-row vector without the transposes: NumPy aligns the vector with the COLUMNS axis")
+        if {a, b} == {"RC", "CR"}:
+            return ("BAD", "a (rows, columns) array is combined with a (columns, rows) one")
+        return None
+    if t.op == "ifexp":
+        xs = [_layout(a) for a in t.args[1:]]
+        for x in xs:
+            if isinstance(x, tuple):
+                return x
+        xs = [x for x in xs if x != "S"]
+        return xs[0] if xs and all(x == xs[0] for x in xs) else None
+    if t.op == "phi":
+        xs = [_layout(a) for a in t.args]
+        for x in xs:
+            if isinstance(x, tuple):
+                return x
+        return xs[0] if xs and all(x == xs[0] for x in xs) else None
+    return None
+
+
+def rule_row_layout(prog, C, rule, modules=("ffuncs", "xfuncs"), classes=None):
+    """With several fact columns and a per-row weight vector, every constructor field that carries fact values or fact
+    validity ends up as (rows, columns): the vector is broadcast through the `X.T op w` ... `.T` sandwich.  A missing
+    transpose aligns the weights with the columns axis (ValueError for rows != columns, silently wrong for a square array)."""
+    n = 0
+    for module in modules:
+        pre = "ffunc_" if module == "ffuncs" else "xfunc_"
+        for cname, ci in sorted(prog.modules[module].classes.items()):
+            name = cname[len(pre):]
+            if not cname.startswith(pre) or (classes and name not in classes) or name in ("op_base", "min", "max", "count"):
+                continue
+            try:
+                m = model(prog, module, cname, aggr.Config(weights="array"))
+            except Exception:
+                continue
+            for fname in ("summables", "countables", "validity", "wsummables", "arr"):
+                t = m.fields.get(fname)
+                if t is None:
+                    continue
+                n += 1
+                where = "%s:%s.__init__" % (module, cname)
+                cons = "%s.%s with (rows, columns) facts and per-row weights is laid out (rows, columns)" % (cname, fname)
+                lay = _layout(t)
+                if isinstance(lay, tuple):
+                    C.add(rule, VIOLATED, where, cons, lay[1], {"inputs": "facts of shape (4, 2) with weights of shape (4,): ValueError (operands could not be broadcast); facts (3, 3): silently wrong"})
+                elif lay is None:
+                    C.add(rule, UNDECIDED, where, cons, "layout of %s not inferred" % tm.show(t)[:60])
+                elif lay in ("RC",):
+                    C.add(rule, PROVED, where, cons, "transposes are paired")
+                elif lay == "CR":
+                    C.add(rule, VIOLATED, where, cons, "the field is left transposed (columns, rows): every later row selection addresses columns", {"inputs": "facts of shape (4, 2) with weights"})
+                else:
+                    C.add(rule, PROVED, where, cons, "per-row field")
     return n
 
 
